@@ -79,15 +79,30 @@ package workceptor
 //@   modifies nothing
 //@   ensures DECISION: (result == nil) == authorized(c.w, workType, signature, connIsUnix, signWork)
 
+//@ func IsComplete
+//@   tags C13 C05
+//@   pure
+//@   ensures DEF: result == (workState == 2 || workState == 3)
+//@ func IsPending
+//@   pure
+
+//@ func (*workceptorCommand).ControlFunc$1
+//@   modifies nothing
 //@ func (*workceptorCommand).ControlFunc
-//@   tags C15
-//@   requires c != nil && c.w != nil && cfo != nil && nc != nil
+//@   tags C15 C13 C04
+//@   requires c != nil && c.w != nil && cfo != nil && nc != nil && c.w.nc != nil
+//@   loop range c.params
+//@     invariant NOWRITE: !flag("swrote")
 //@   site call processSignature UNIXONLY: requires arg3 ==> lastcall("Network") == "unix"
 //@   site call AllocateUnit AUTHZSUBMIT: requires authorized(c.w, arg1, signature, connIsUnix, signWork)
 //@   site call AllocateRemoteUnit AUTHZSUBMITREMOTE: requires authorized(c.w, arg2, signature, connIsUnix, arg5)
 //@   site call Cancel AUTHZCANCEL: requires authorized(c.w, status.WorkType, signature, connIsUnix, signWork)
 //@   site call Release AUTHZRELEASE: requires authorized(c.w, status.WorkType, signature, connIsUnix, signWork)
 //@   site call GetResults AUTHZRESULTS: requires authorized(c.w, status.WorkType, signature, connIsUnix, signWork)
+//@   ghostflag swrote set call:UpdateBasicStatus
+//@   site call UpdateBasicStatus OWNFORWARD: [C13] requires arg2 == 0 && (flag("swrote") ==> rank(arg0) >= rank(lastarg("UpdateBasicStatus", 0)) && rank(lastarg("UpdateBasicStatus", 0)) < 2)
+//@   site call ReadFromConn ACKAFTERSAVE: [C04] requires worker != nil && flag("swrote") && lastarg("UpdateBasicStatus", 0) == 0
+//@   site call Start AFTERSTDIN: [C04 C13] requires flag("swrote") && lastarg("UpdateBasicStatus", 0) == 0 && lastcall("Close", 0) == nil
 
 // ---- C14: every access to the status file happens inside the file lock, in the order read -> callback -> rewrite
 
@@ -242,3 +257,43 @@ package workceptor
 //@   safety
 //@   requires w != nil && w.nc != nil
 //@   site mapupdate Workceptor.activeUnits RESCAN: [C13 C04] requires held(w.activeUnitsLock) == 2 && key == ident && value == worker && worker != nil
+
+// ---- C13: each writer of a unit's status only moves it forward (pending < running < finished).  What is proved
+// ---- is the order of the writer's own writes; that no other writer interleaves is the rely stated in DESIGN.md.
+
+//@ spec rank(s int) int := s <= 0 ? 0 : (s == 1 ? 1 : 2)
+
+// the detached runner process: Pending, then Running any number of times, then exactly one final state (or Failed
+// "Killed" followed by exit); sizes are the size of the stdout file, never a constant after the first write
+//@ func commandRunner
+//@   tags C13
+//@   ghostflag wrote set call:UpdateBasicStatus
+//@   site call UpdateBasicStatus SAMEFILE: [C13] requires arg1 == statusFilename && arg0 != nil
+//@   site call UpdateBasicStatus FORWARD: [C13] requires flag("wrote") ==> rank(arg2) >= rank(lastarg("UpdateBasicStatus", 2)) && rank(lastarg("UpdateBasicStatus", 2)) < 2
+//@   site call UpdateBasicStatus FIRST: [C13] requires !flag("wrote") ==> arg2 == 0 && arg4 == 0
+//@   site call UpdateBasicStatus SIZE: [C13] requires flag("wrote") ==> arg4 == lastcall("stdoutSize", 0)
+//@   loop #2
+//@     invariant PHASE0: [C13] flag("wrote") && lastarg("UpdateBasicStatus", 2) == 0
+//@   loop #1
+//@     invariant PHASE: [C13] flag("wrote") && rank(lastarg("UpdateBasicStatus", 2)) < 2
+
+// a unit found pending after a restart never ran: it is marked failed; finished units are left as they are
+//@ func (*commandUnit).Restart
+//@   tags C04 C13
+//@   requires cw != nil
+//@   ghostflag marked set call:UpdateBasicStatus
+//@   site call UpdateBasicStatus ONLYPENDING: [C13 C04] requires state == 0 && arg0 == 3 && arg2 == lastcall("stdoutSize", 0)
+//@   ensures NEVERSTARTED: [C04] result == nil && lastcall("Load", 0) == nil ==> (state == 0 <==> flag("marked"))
+
+// cancelling records Canceled without touching the recorded output size, only after the process was signalled
+//@ func (*commandUnit).Cancel
+//@   tags C13
+//@   requires cw != nil
+//@   site call UpdateBasicStatus CANCELLED: [C13] requires arg0 == 4 && arg2 == -1 && lastcall("Signal", 0) == nil
+
+// Release of a command unit: the unit is forgotten only through BaseWorkUnit.Release, after Cancel succeeded or force
+//@ func (*commandUnit).Release
+//@   tags C13
+//@   requires cw != nil
+//@   site call Release VIACANCEL: [C13] requires arg0 == force && (force || lastcall("Cancel", 0) == nil)
+//@   ensures FAILEDCANCEL: [C13] !force && lastcall("Cancel", 0) != nil ==> result == lastcall("Cancel", 0)
